@@ -5,8 +5,8 @@
    double-bond reference atoms) is universally quantified. *)
 From Coq Require Import ZArith List String Bool.
 From Model Require Import PyBase Graph PeriodicTable Stereo Rdkit RdkitRegistry.
-From Gen Require Import Elements RdkitTables StereoTables.
-From Proofs Require Import StereoProofs RdkitProofs RdkitExt RdkitExt2 RdkitExt3 RdkitExt4.
+From Gen Require Import Elements RdkitTables StereoTables RdkitConsts.
+From Proofs Require Import StereoProofs RdkitProofs RdkitExt RdkitExt2 RdkitExt3 RdkitExt4 RdkitExt5.
 Import ListNotations.
 Open Scope string_scope.
 Open Scope Z_scope.
@@ -640,3 +640,23 @@ Theorem C20_bridge_stereo_molecule_graph_example :
   graph_wf g g' (rho_of nums) nums nb 0 [(3, None); (7, Some true); (9, None); (4, None); (5, None)].
 Proof. exact graph_example. Qed.
 Print Assumptions C20_bridge_stereo_molecule_graph_example.
+
+(* ---- the constants and test shapes copied by the hand-written models are the ones regenerated from the source ---- *)
+(* Gen.RdkitConsts is rewritten on every run from chython/algorithms/stereo.py (H, C, the tests of tetrahedrons and
+   stereogenic_tetrahedrons, the ring cut-off of __chiral_centers, the entry test of _chiral_morgan) and from the charge setter of
+   chython/periodictable/base/element.py; a source edit of any of them breaks this theorem (or the translator fails closed) *)
+Theorem C20_models_use_generated_constants :
+  (forall sizes, ring_bond_chiral sizes = negb (existsb (fun x => x <? ring_small_below) sizes)) /\
+  (forall a b, uses_plain_order a b = entry_test plain_order_negated a b) /\
+  (forall g n, is_tetrahedron g n =
+     match atom_of g n with
+     | Some a => (a_num a =? stereo_C) && (a_chg a =? 0) && negb (a_rad a) &&
+                 forallb (fun mb => b_ord (snd mb) =? tetra_bond_order) (nbrs g n) &&
+                 negb (tetra_max_bonds <? Z.of_nat (List.length (nbrs g n)))
+     | None => false
+     end) /\
+  (forall g x, is_hydrogen g x = match atom_of g x with Some a => a_num a =? stereo_H | None => false end) /\
+  (forall k : Z, ((k =? 3) || (k =? 4)) = zmem k tetra_env_sizes) /\
+  (forall chg, ((4 <? chg) || (chg <? -4)) = ((charge_max <? chg) || (chg <? charge_min))).
+Proof. exact models_use_generated_constants. Qed.
+Print Assumptions C20_models_use_generated_constants.
